@@ -312,6 +312,9 @@ func focusFamilies(g *Gen, t *fTables, ft focusTarget, bases [][]byte, emit func
 			c[0] = byte(x)
 			man, opt := fresh(true)
 			v := ieVal{name: s.Name, data: c}
+			if s.LenSize > 0 {
+				v.ln = n // a length field in front of fixed-size contents (TLV with one octet, LV with a whole array)
+			}
 			if o && s.HasIei {
 				v.iei = s.Iei
 			}
